@@ -129,7 +129,12 @@ class BroadcastTo(ArrayExpr):
             input_axis,
             shuffle_expr.operand("name"),
         )
-        return BroadcastTo(shuffled_input, self._shape, self._chunks, self._meta)
+        # A take-style indexer changes the extent and chunking of the axis.
+        shape = list(self._shape)
+        chunks = list(self._chunks)
+        shape[axis] = shuffled_input.shape[input_axis]
+        chunks[axis] = shuffled_input.chunks[input_axis]
+        return BroadcastTo(shuffled_input, tuple(shape), tuple(chunks), self._meta)
 
     def _accept_slice(self, slice_expr):
         """Accept a slice being pushed through BroadcastTo.
